@@ -3798,10 +3798,13 @@ class BoutMesh(Mesh):
             elif len(self.y_regions_noguards) == 3:
                 # single-null
                 jyseps1_1 = self.y_regions_noguards[0] - 1
-                jyseps2_1 = self.ny // 2
-                ny_inner = self.ny // 2
-                jyseps1_2 = self.ny // 2
                 jyseps2_2 = sum(self.y_regions_noguards[:2]) - 1
+                # jyseps2_1 = jyseps1_2 marks a single null. Any value works, but BOUT++
+                # requires jyseps1_1 <= jyseps2_1 <= jyseps1_2 <= jyseps2_2, so keep it
+                # inside the core region when the legs have very different lengths.
+                jyseps2_1 = min(max(self.ny // 2, jyseps1_1), jyseps2_2)
+                ny_inner = jyseps2_1
+                jyseps1_2 = jyseps2_1
             elif len(self.y_regions_noguards) == 4:
                 # single X-point with all 4 legs ending on walls
                 jyseps1_1 = self.y_regions_noguards[0] - 1
